@@ -6,7 +6,9 @@ firstn k is a prefix of a sentence (shifted_prefix_viable) and firstn (k+1)
 (end of input = eof) is not (first_error_not_viable); the interpreter never
 panics.  Tie: validators over the implementation's own dumps; interpreter vs
 Parser::lr on the same tables; error count/value; first error with CPCT+ on.
-Failing-input search: Earley viable-prefix oracle on every input.
+Failing-input search: Earley viable-prefix oracle on every input.  The builder's
+setter order (recoverer/term_costs) and the entry point (parse_map, parse_generictree,
+parse_actions, parse_noaction) of the recovery-off parse vary per input (`# BO`).
 """
 from vlib import core, lr, cfg
 from gen import grammars as G
@@ -70,8 +72,12 @@ def run(ctx):
                            "grammar": r.src, "validators": r.verdict, "detail": r.vdetail,
                            "theorem_no_longer_applicable": "shifted_prefix_viable"}, no_input=True)
             ctx.oblige(False)
-        for toks, io, orr in zip(r.inputs, r.impl_out, r.impl_out_rec):
+        for toks, io, orr, bo in zip(r.inputs, r.impl_out, r.impl_out_rec, r.builder):
             sent, viable = g.earley(toks)
+            if not sent and bo is not None:
+                # how the recovery-off parser was configured / run is an input too (setter order, term_costs call, entry point)
+                ctx.count("rejected_order_%d" % bo[0])
+                ctx.count("rejected_entry_%s" % lr.ENTRY_POINTS.get(bo[1], "?"))
             if not io.startswith("rej "):
                 if not sent and io.startswith("acc"):
                     pass                     # reported by C01.check_results
@@ -95,6 +101,8 @@ def run(ctx):
                 why.append("%d errors reported with recovery off" % nerr)
             if val != 0:
                 why.append("a value is returned for a rejected input")
+            if "repairs=" in io:
+                why.append("the error carries repair sequences although recovery is off")
             if orr.startswith("rej "):
                 if int(orr.split()[1]) != exp:
                     why.append("with CPCT+ the first error is at lexeme %s, expected %d" % (orr.split()[1], exp))
@@ -105,10 +113,15 @@ def run(ctx):
             if why:
                 ctx.violation({"what": "; ".join(why), "grammar": r.src, "input_tidxs": toks,
                                "input": [g.tnames.get(t, "?") for t in toks], "impl": io, "impl_with_recovery": orr,
+                               "recovery_off_parser": lr.builder_text(bo),
                                "earley_viable_prefix_lengths": [i for i, v in enumerate(viable) if v]})
             ctx.oblige(not why)
     ctx.coverage["rule"] = ("reduced (productive, reachable), acyclic grammars whose table has no multi-candidate cell; inputs as C01 "
                             "(sentences, edited sentences, random strings); non-trivial/distinct as C01")
+    ctx.coverage["builder"] = ("the recovery-off parser of each input is configured in one of 3 ways (recoverer only / recoverer then "
+                               "term_costs / term_costs then recoverer, non-uniform costs) and run through one of 4 entry points "
+                               "(parse_map, parse_generictree, parse_actions, parse_noaction), chosen from the input's index and length; "
+                               "counters rejected_order_*/rejected_entry_* give the rejected inputs per choice")
     ctx.assumptions += ["conflict-free = conflicts() is None and every cell has at most one candidate",
                         "Earley oracle's viable-prefix test is valid because every rule is productive",
                         "tokens in range, no eof token from the lexer"]
